@@ -57,10 +57,11 @@ pure voted(k Int) Int = asint(cres("Vote", k))
 pure voter(k Int) Bytes = asbytes(cres("InnerRingInvoker", k))
 
 func Cheque(id, user, amount, lockAcc)
-  ensures [C03,C17] notaryDisabled(old(store)) ==> xcalls("Vote").len == old(xcalls("Vote")).len + 1
+  ensures [C03,C17,C19] notaryDisabled(old(store)) ==> xcalls("Vote").len == old(xcalls("Vote")).len + 1
   // a decision that fires clears its ballot (so it takes effect exactly once)
   ensures [C17,C19] notaryDisabled(old(store)) ==> ((notifs.len == old(notifs).len + 1) == (xcalls("RemoveVotes").len == old(xcalls("RemoveVotes")).len + 1))
-  ensures [C17] notaryDisabled(old(store)) && old(store).has("alphabet") ==>
+  // (C19: the payout happens once the Alphabet approves - exactly at the 2/3+1 threshold of the stored keys, not below)
+  ensures [C03,C17,C19] notaryDisabled(old(store)) && old(store).has("alphabet") ==>
         ((notifs.len == old(notifs).len + 1) == (voted(old(xcalls("Vote")).len) >= thr(old(store))))
   // pays out exactly the cheque amount, at most once per invocation, together with its notification
   ensures [C19] xcalls == old(xcalls) || xcalls == old(xcalls) ++ [native_gas_Transfer(self(), user, amount, nil)]
@@ -72,7 +73,7 @@ func Cheque(id, user, amount, lockAcc)
   // without Notary nothing but the ballot list is written
   ensures [C17] forall k Bytes {store.opt(k)} :: k != "ballots" ==> store.opt(k) == old(store).opt(k)
   // the vote is cast for, and a fired decision clears, the ballot of this decision id (votes for different ids never mix)
-  ensures [C03,C17] xcalls("Vote").len == old(xcalls("Vote")).len + 1 ==> xcalls("Vote")[old(xcalls("Vote")).len] == ev_Vote(id, voter(old(xcalls("InnerRingInvoker")).len))
+  ensures [C03,C17,C19] xcalls("Vote").len == old(xcalls("Vote")).len + 1 ==> xcalls("Vote")[old(xcalls("Vote")).len] == ev_Vote(id, voter(old(xcalls("InnerRingInvoker")).len))
   ensures [C17] xcalls("RemoveVotes").len == old(xcalls("RemoveVotes")).len || (xcalls("RemoveVotes").len == old(xcalls("RemoveVotes")).len + 1
         && xcalls("RemoveVotes")[old(xcalls("RemoveVotes")).len] == ev_RemoveVotes(id))
 
